@@ -14,7 +14,8 @@ FastaIndex(path).auto_load(); it must raise or show exactly that.
     os.replace / ...; the child is killed with os._exit before operation k, for every k.  Buffered data that has not
     reached the OS is lost, completed operations persist.  Then the parent observes.
 (c) two "processes" (threads with separate fake pids, gated so that exactly one runs at a time) auto-load the same
-    FASTA; the schedule switches at file-operation boundaries with at most two preemptions.
+    FASTA; the schedule switches at file-operation boundaries with at most two preemptions.  A third process, a reader
+    that runs unpreempted, auto-loads while the others are suspended (evaluated on a copy of the files).
 (d) indexing runs interrupted by an *exception* instead of a kill: at file operation k (the operations of (b) plus every
     write() call on the text handle of a cache file, i.e. between any two rows) the run receives KeyboardInterrupt (a real
     SIGINT when the check runs in the main thread), OSError(ENOSPC) or SystemExit.  The stack unwinds through the writing
@@ -629,9 +630,10 @@ def exception_experiment(scenario, big, k, kind, col, inp, labels=None):
                 fired[0] = True
                 raise_injected(kind)
 
-        victim = FastaIndex(pathlib.Path(fa))
+        victim = None
         with FileOps(d, hook, text_events=True):
             try:
+                victim = FastaIndex(pathlib.Path(fa))
                 victim.auto_load()
                 outcome = "returned normally"
             except BaseException as e:
@@ -641,7 +643,10 @@ def exception_experiment(scenario, big, k, kind, col, inp, labels=None):
         where = f"at event {k + 1}" + (f" ({labels[k]})" if labels and k < len(labels) else "")
         head = f"{'big' if big else 'small'} input, cache state '{scenario}': indexing run hit by {kind} {where} and {outcome}; "
         if fired[0] and outcome == "returned normally":
-            msg = judge(("ok", *snapshot(victim)), cur)
+            try:
+                msg = judge(("ok", *snapshot(victim)), cur)
+            except Exception as e:
+                msg = f"an object that cannot be read ({type(e).__name__}: {e})"
             if msg:
                 col.fail(head + f"the run itself silently carries on with: {msg}", inp)
         msg = judge(observe(fa), cur)
@@ -656,13 +661,16 @@ def exception_experiment(scenario, big, k, kind, col, inp, labels=None):
 
 def exception_points(scenario, big, quick):
     """(total, labels, ks): event numbers at which to inject.  All of them for the small input; for the big input every file
-    operation, and of the ~4000 text-handle writes the first and last three of each file plus an even spread."""
+    operation (quick: from the first open-for-writing on), and of the ~3300 text-handle writes the first and last three of
+    each file plus an even spread (quick: ~6 per file, thorough: ~60 per file)."""
     total, labels = count_events(scenario, big, text_events=True)
     if not big:
         return total, labels, list(range(total + 1))
     ks = {total}
     text = [k for k, lab in enumerate(labels) if lab.startswith("text-write")]
-    ks.update(k for k, lab in enumerate(labels) if not lab.startswith("text-write"))
+    first_write = min([k for k, lab in enumerate(labels) if lab.startswith("open-w")], default=total)
+    # quick: the stat / read operations before the first cache file is opened are explored with the small input only
+    ks.update(k for k, lab in enumerate(labels) if not lab.startswith("text-write") and (k >= first_write or not quick))
     by_file = {}
     for k in text:
         by_file.setdefault(labels[k], []).append(k)
@@ -727,8 +735,41 @@ class Sched:
             return self.state[who] == "done"
 
 
-def interleave_experiment(scenario, big, i, j, col, inp):
-    """A passes i operations, B passes j operations (None: completes), A completes, B completes. Returns (A done early, B done early)."""
+_VIEW_MEMO = {}
+
+
+def reader_view(fa, cur):
+    """
+    What a further process C that starts now, and runs its auto-load without being preempted, would get: the load is done on
+    a copy of the FASTA and the cache files (contents and mtimes preserved), so the schedule of the others is not disturbed.
+    """
+    # C's result is a function of the three files' contents and of which cache files are strictly newer than the FASTA:
+    # states already judged in this run are not judged again
+    key = [cur]
+    fasta_mtime = os.stat(fa).st_mtime
+    for ext in (".fai", ".agp"):
+        try:
+            with open(fa + ext, "rb") as fh:
+                key.append((fh.read(), os.stat(fa + ext).st_mtime > fasta_mtime))
+        except FileNotFoundError:
+            key.append(None)
+    key = tuple(key)
+    if key not in _VIEW_MEMO:
+        with tempfile.TemporaryDirectory(prefix="c15view") as v:
+            for ext in ("", ".fai", ".agp"):
+                try:
+                    shutil.copy2(fa + ext, os.path.join(v, os.path.basename(fa) + ext))
+                except FileNotFoundError:
+                    pass
+            _VIEW_MEMO[key] = judge(observe(os.path.join(v, os.path.basename(fa))), cur)
+    return _VIEW_MEMO[key]
+
+
+def interleave_experiment(scenario, big, i, j, col, inp, more_readers=False):
+    """
+    A passes i operations, B passes j operations (None: completes), A completes, [reader C], B completes.
+    Returns (A done early, B done early).
+    """
     with tempfile.TemporaryDirectory() as d:
         fa, cur = setup_scenario(d, scenario, big)
         sched = Sched(["A", "B"])
@@ -750,12 +791,24 @@ def interleave_experiment(scenario, big, i, j, col, inp):
                 t.start()
             sched.wait_parked("A")
             sched.wait_parked("B")
+            mid = []
             a_done = sched.run_segment("A", i)
             b_done = sched.run_segment("B", j)
+            if more_readers and not (a_done and b_done):
+                mid.append((f"A x{i} / B x{j}", reader_view(fa, cur)))
             sched.run_segment("A", None)
+            if not b_done:
+                mid.append((f"A x{i} / B x{j} / A", reader_view(fa, cur)))
             sched.run_segment("B", None)
             for t in threads:
                 t.join(timeout=60)
+        for after, msg in mid:
+            if msg:
+                col.fail(
+                    f"{'big' if big else 'small'} input, cache state '{scenario}', schedule {after} / C / ...: a third process C that "
+                    f"auto-loads at this point, while the other run(s) are suspended, silently loads: {msg}",
+                    inp,
+                )
         for who in ("A", "B"):
             obs = results.get(who, ("harness", "no result"))
             if obs[0] == "harness":
@@ -778,16 +831,20 @@ def interleave_experiment(scenario, big, i, j, col, inp):
 
 def replay(inp):
     col = Collector("replay")
+    _VIEW_MEMO.clear()
     prev = logging.root.manager.disable
     logging.disable(logging.CRITICAL)
     try:
         if inp["kind"] == "history":
-            run_history(inp["ops"], col, inp)
+            run_history(inp["ops"], col, inp, same_size_family=inp.get("gen") == "ss")
         elif inp["kind"] == "crash":
             crash_experiment(inp["scenario"], inp["big"], inp["k"], col, inp)
+        elif inp["kind"] == "exception":
+            labels = count_events(inp["scenario"], inp["big"], text_events=True)[1]
+            exception_experiment(inp["scenario"], inp["big"], inp["k"], inp["exc"], col, inp, labels)
         else:
             try:
-                interleave_experiment(inp["scenario"], inp["big"], inp["i"], inp["j"], col, inp)
+                interleave_experiment(inp["scenario"], inp["big"], inp["i"], inp["j"], col, inp, more_readers=True)
             except SchedulerStuck as e:
                 return f"schedule did not complete: {e!r}"
     finally:
@@ -798,20 +855,32 @@ def replay(inp):
 def run(tier, seed, **opts):
     rng = random.Random(seed)
     quick = tier == "quick"
-    parts = opts.get("parts", "abc")  # run only some of the three families (testing aid)
+    _VIEW_MEMO.clear()
+    parts = opts.get("parts", "abcde")  # run only some of the five families (testing aid)
     max_len = 4 if quick else 5
+    session_len = 3 if quick else 4
     col = Collector(
         f"(a) all histories of <= {max_len} operations over {{rewrite FASTA, delete .fai, delete .agp, auto-load}} x clock tick 0/1 "
         "before each operation, ending in an auto-load; (b) every crash point (before each file operation incl. every raw "
         "write reaching the OS) of an indexing run from cache states cold / stale / .fai missing / .agp missing / valid, small "
         "input and an input whose .fai and .agp exceed the 8 KiB io buffer, followed by a fresh auto-load; (c) two gated "
-        "auto-loads of the same FASTA, schedules A x i, B x j, A, B over all i, j at file-operation granularity; "
-        "non-trivial = distinct histories / crash points / schedules",
-        max_samples=6,
+        "auto-loads of the same FASTA, schedules A x i, B x j, A, B over all i, j at file-operation granularity, with a third "
+        "process (a reader that is not preempted) after A has completed while B is still suspended"
+        + ("" if quick else " and while both are suspended") + "; "
+        "(d) the same indexing runs hit by an exception (KeyboardInterrupt through a real SIGINT / OSError ENOSPC / SystemExit) at a "
+        "file operation or at a write() call on the text handle of a cache file (small input: every such point x 3 kinds; big "
+        "input: every file operation" + (" from the first open-for-writing on, cache states stale and .fai missing only" if quick else "") + ", first and last 3 writes of "
+        "each cache file and an even spread of the others, kinds rotated), followed by a fresh "
+        f"auto-load; (e) all histories of <= {session_len} operations inside ONE process over {{rewrite same size in bytes with tick 0/1, "
+        "rewrite other size, delete cache, auto-load / run_indexing() on a new / on one long-lived FastaIndex object}, ending in a load"
+        + ("" if quick else ", plus 300 seeded random ones of 5-9 operations")
+        + "; after (a), (d), (e) also the cache files on disk are read independently; "
+        "non-trivial = distinct histories / crash points / injection points / schedules",
+        max_samples=8,
     )
     prev = logging.root.manager.disable
     logging.disable(logging.CRITICAL)
-    n_hist = n_crash = n_sched = 0
+    n_hist = n_crash = n_sched = n_exc = n_sess = 0
     try:
         # (a)
         for ops in histories(max_len) if "a" in parts else ():
@@ -836,6 +905,38 @@ def run(tier, seed, **opts):
                         n_crash += 1
                         if col.full:
                             break
+        # (d)
+        for big in (False, True) if "d" in parts else ():
+            for scenario in SCENARIOS:
+                if col.full:
+                    break
+                if big and quick and scenario not in ("stale", "fai-missing"):
+                    continue  # quick, big input: one state where the .agp and one where the .fai is the file whose validity is at stake
+                total, labels, ks = exception_points(scenario, big, quick)
+                for n, k in enumerate(ks):
+                    kinds = EXC_KINDS if not big else (EXC_KINDS[n % 3],) if quick else (EXC_KINDS[n % 3], EXC_KINDS[(n + 1) % 3])
+                    for kind in kinds:
+                        inp = {"kind": "exception", "scenario": scenario, "big": big, "k": k, "exc": kind}
+                        fired = exception_experiment(scenario, big, k, kind, col, inp, labels)
+                        assert fired == (k < total), (scenario, big, k, total)
+                        col.case(("x", scenario, big, k, kind), sample=inp if (scenario, big, k, kind) == ("stale", False, 12, "interrupt") else None)
+                        n_exc += 1
+                    if col.full:
+                        break
+        # (e)
+        if "e" in parts:
+            gen = itertools.chain(
+                session_histories(session_len),
+                () if quick else (random_session_history(rng, rng.randint(5, 9)) for _ in range(300)),
+            )
+            for ops in gen:
+                if col.full:
+                    break
+                inp = {"kind": "history", "gen": "ss", "ops": ops}
+                judged = run_history(ops, col, inp, same_size_family=True)
+                col.evaluations += max(0, judged - 1)
+                col.case(("s", repr(ops)), sample=inp if n_sess == 150 else None)
+                n_sess += 1
         # (c)
         for big in (False, True) if "c" in parts else ():
             for scenario in SCENARIOS:
@@ -856,7 +957,7 @@ def run(tier, seed, **opts):
                             continue  # B completes within its segment: same schedule as an earlier one
                         inp = {"kind": "interleave", "scenario": scenario, "big": big, "i": i, "j": j}
                         try:
-                            _, b_done = interleave_experiment(scenario, big, i, j, col, inp)
+                            _, b_done = interleave_experiment(scenario, big, i, j, col, inp, more_readers=not quick)
                         except SchedulerStuck as e:
                             col.fail(f"schedule A x{i} / B x{j} on cache state '{scenario}' did not complete: {e!r}", inp, ["stuck"])
                             b_done = False
@@ -872,6 +973,8 @@ def run(tier, seed, **opts):
         logging.disable(prev)
     return col.result(
         bounds=f"{n_hist} histories of length <= {max_len}; {n_crash} crash points (5 cache states x small / >8 KiB-cache input, every file "
-        f"operation); {n_sched} two-process schedules with <= 2 preemptions",
+        f"operation); {n_sched} two-process schedules with <= 2 preemptions; {n_exc} exception injections (cache states x small / big input x "
+        f"file operations and text-handle writes x up to 3 exception kinds); {n_sess} one-process histories of length <= {session_len} "
+        "with same-size rewrites and long-lived objects" + ("" if quick else " (300 of them random, length 5-9)"),
         exhaustive=True,
     )
